@@ -117,13 +117,20 @@ func c09GenHistory(r *rand.Rand, l *fedLayout) *c09History {
 	return h
 }
 
+// the distinct subgraph requests of an execution: the loader coalesces identical requests of one execution that are in flight at the
+// same time (subgraph request deduplication), so how often an identical request is sent depends on timing, not on the plan
 func c09LogKey(log []fedExchange) string {
 	var keys []string
+	seen := map[string]bool{}
 	for _, ex := range log {
 		var v any
 		_ = json.Unmarshal(ex.Variables, &v)
 		b, _ := json.Marshal(v)
-		keys = append(keys, ex.Subgraph+"|"+ex.Query+"|"+string(b))
+		k := ex.Subgraph + "|" + ex.Query + "|" + string(b)
+		if !seen[k] {
+			seen[k] = true
+			keys = append(keys, k)
+		}
 	}
 	sort.Strings(keys)
 	return strings.Join(keys, "\n")
